@@ -93,7 +93,7 @@ fn main() {
     }
     // Part B: BAR kinds and offset/length boundaries, one or two deviating capabilities.
     let bar_opts: Vec<(BarKind, u64)> = vec![
-        (BarKind::Mem64 { size: GOOD_BAR_SIZE, prefetch: true }, GOOD_BAR_ADDR),
+        (BarKind::Mem64 { size: GOOD_BAR_SIZE, prefetch: true }, GOOD_BAR_ADDR + 0x1_0000_0000),
         (BarKind::Mem32 { size: 0x4000, prefetch: false, below_1m: false }, 0xfe00_0000),
         (BarKind::Mem64 { size: 1 << 33, prefetch: false }, 0x10_0000_0000),
         (BarKind::Mem64 { size: 1 << 63, prefetch: false }, 1 << 63),
